@@ -224,21 +224,23 @@ def unoptimised_build_runs(ck, oplines, what):
     """The same pure operations in a driver built WITHOUT optimisation (-O0, as the repository's Debug configuration does): no function is
     inlined there, so two same-named `inline` helpers with different bodies in two translation units collapse into one (the linker keeps
     one body per name) - every optimised build, and therefore every other run of this check, is blind to that."""
-    try:
-        exe0 = ck.impl_driver(extra_flags=["-O0"])
-    except wv.BuildError as e:
-        ck.notes.append("-O0 build failed: " + str(e)[-200:])
-        return
     mdrv = ck.model_driver()
     lines = ["u%d %s" % (i, l) for i, l in enumerate(oplines)]
     want = wv.run_lines([mdrv, "spec"], lines)
-    got = wv.run_lines([exe0], lines, env=ck.env())
-    for l in lines:
-        cid = l.split()[0]
-        ck.cov["evaluations"] += 1
-        if got.get(cid) != want.get(cid):
-            ck.violation("%s differs from the standard in an UNOPTIMISED build of the same sources (-O0)" % what,
-                         {"class": None, "case": l.split(" ", 1)[1][:2000], "implementation_O0": got.get(cid), "spec": want.get(cid),
-                          "replay": "build harness/drv.cpp against /repo with -O0 (tools/wv.py build_impl extra_flags=['-O0']); echo 'x <case>' | ./drv"})
+    # both link orders of the library's objects: which of two same-named bodies the linker keeps depends on the order
+    for rev in (False, True):
+        try:
+            exe0 = ck.impl_driver(extra_flags=["-O0"], reverse_link_order=rev)
+        except wv.BuildError as e:
+            ck.notes.append("-O0 build failed: " + str(e)[-200:])
             return
+        got = wv.run_lines([exe0], lines, env=ck.env())
+        for l in lines:
+            cid = l.split()[0]
+            ck.cov["evaluations"] += 1
+            if got.get(cid) != want.get(cid):
+                ck.violation("%s differs from the standard in an UNOPTIMISED build of the same sources (-O0, library objects linked in %s order)" % (what, "reverse" if rev else "source-list"),
+                             {"class": None, "case": l.split(" ", 1)[1][:2000], "implementation_O0": got.get(cid), "spec": want.get(cid),
+                              "replay": "build harness/drv.cpp against /repo with -O0 (tools/wv.py build_impl extra_flags=['-O0'], reverse_link_order=%s); echo 'x <case>' | ./drv" % rev})
+                return
     ck.cov.setdefault("case_classes", {})["unoptimised-build/" + what] = len(lines)
